@@ -3,10 +3,10 @@
 import json, os, re, sys
 B = "/verif/.build"; V = "/verif/mc/overlay"
 os.makedirs(B + "/ovl", exist_ok=True)
-base = {"/repo/src/free5gclib/nas/security/snow3g/zz_verif_export.go": V + "/snow3g_export.go"}
+base = {"/repo/src/free5gclib/nas/security/snow3g/zz_verif_export.go": V + "/snow3g/export.go"}
 json.dump({"Replace": base}, open(B + "/overlay.json", "w"))
 # emulator: "time" -> vtime in stg-utg.go and src/stgutg/*.go
-emu = {"/repo/src/tglib/vtime/vtime.go": V + "/vtime.go"}
+emu = {"/repo/src/tglib/vtime/vtime.go": V + "/vtime/vtime.go"}
 files = ["/repo/stg-utg.go"] + ["/repo/src/stgutg/" + f for f in sorted(os.listdir("/repo/src/stgutg")) if f.endswith(".go") and not f.endswith("_test.go")]
 n = 0
 for f in files:
